@@ -344,7 +344,7 @@ fn sweep_one(input: &str, st: &mut SweepStats, emit: &mut dyn FnMut(String)) {
 
 /// All strings over `alphabet` of length 0..=maxlen whose enumeration index is
 /// congruent to `shard` modulo `of`.
-pub fn sweep_strings(alphabet: &[String], maxlen: usize, shard: u64, of: u64) {
+pub fn sweep_strings(alphabet: &[String], maxlen: usize, shard: u64, of: u64, prefix: &str, suffix: &str) {
     let mut st = SweepStats { total: 0, accepted: 0, rejected: 0, panics: 0, failing: 0, max_tokens: 0 };
     let mut emit = |s: String| println!("F {s}");
     let k = alphabet.len();
@@ -353,10 +353,11 @@ pub fn sweep_strings(alphabet: &[String], maxlen: usize, shard: u64, of: u64) {
         let mut digits = vec![0usize; len];
         loop {
             if index % of == shard {
-                let mut s = String::new();
+                let mut s = String::from(prefix);
                 for d in &digits {
                     s.push_str(&alphabet[*d]);
                 }
+                s.push_str(suffix);
                 sweep_one(&s, &mut st, &mut emit);
             }
             index += 1;
@@ -463,12 +464,12 @@ pub fn sweep_pairs(shard: u64, of: u64) {
                     kinds_checked += 1;
                     if got != want {
                         st.failing += 1;
-                        println!("F {{\"input\":{},\"kind\":\"spelling-kinds\",\"detail\":{},\"all\":[\"spelling-kinds\"]}}", esc(sp), esc(&format!("got {got:?} want {want:?}")));
+                        println!("F {{\"input\":{},\"kind\":\"pair-kinds\",\"detail\":{},\"all\":[\"pair-kinds\"],\"want\":{}}}", esc(sp), esc(&format!("got {got:?} want {want:?}")), crate::json::str_arr(&want));
                     }
                 }
                 Ok(Err(e)) => {
                     st.failing += 1;
-                    println!("F {{\"input\":{},\"kind\":\"spelling-rejected\",\"detail\":{},\"all\":[\"spelling-rejected\"]}}", esc(sp), esc(&format!("{e:?}")));
+                    println!("F {{\"input\":{},\"kind\":\"pair-rejected\",\"detail\":{},\"all\":[\"pair-rejected\"]}}", esc(sp), esc(&format!("{e:?}")));
                 }
                 Err(_) => {}
             }
@@ -508,9 +509,10 @@ pub fn sweep_pairs(shard: u64, of: u64) {
                         if got != want {
                             st.failing += 1;
                             println!(
-                                "F {{\"input\":{},\"kind\":\"pair-kinds\",\"detail\":{},\"all\":[\"pair-kinds\"]}}",
+                                "F {{\"input\":{},\"kind\":\"pair-kinds\",\"detail\":{},\"all\":[\"pair-kinds\"],\"want\":{}}}",
                                 esc(&input),
-                                esc(&format!("got {got:?} want {want:?}"))
+                                esc(&format!("got {got:?} want {want:?}")),
+                                crate::json::str_arr(&want)
                             );
                         }
                     } else {
